@@ -656,7 +656,7 @@ def check_as4_reconcile(prog, r):
         r.unanalysable("reconcile_as4: no call of Attribute::as_path_reconcile / no path", fv.loc())
         return
     bad_skip, bad_merge, n = [], [], 0
-    for conds, blocks in paths:
+    for conds, blocks, _penv in paths:
         env = {}
         for br, labels in conds:
             a = atom(br, labels)
